@@ -34,6 +34,10 @@ CATALOGUE = [
     ('trun offset outside mdat', f'{V}/media_segment.py',
      ['base_data_offset', 'data_offset', 'mdat.position', 'header_size'], COMPARE,
      'tfhd.base_data_offset + trun.data_offset compared with the mdat payload start'),
+    ('sample data past the end of the mdat', f'{V}/media_segment.py',
+     [r're:\b(?!mdat\b)\w+\.size\b', 'trun.samples', 'mdat.position + mdat.size'],
+     ('check_less_than_or_equal', 'check_less_than', 'check_equal', 'check_true'),
+     'end of the trun sample run (offset + every sample size) compared with the end of the mdat box'),
     ('wrong saio offset', f'{V}/media_segment.py',
      ['saio.offsets', 'senc.position', 'samples[0].offset'], COMPARE,
      'saio.offsets[0] + base compared with senc.position + first sample offset'),
@@ -82,10 +86,21 @@ def _expand(fn: ast.AST, node: ast.AST, depth: int = 0) -> str:
                     elif isinstance(tg, ast.Tuple) and any(
                             isinstance(e, ast.Name) and e.id == n.id for e in tg.elts):
                         extra.append(_expand(fn, a.value, depth + 1))
-                if isinstance(a, ast.Try):
-                    pass
+                if isinstance(a, ast.AugAssign) and isinstance(a.target, ast.Name) and a.target.id == n.id \
+                        and depth < 2:
+                    extra.append('+= ' + _expand(fn, a.value, depth + 1))
+                if isinstance(a, (ast.For, ast.comprehension)) and isinstance(a.target, ast.Name) \
+                        and a.target.id == n.id and depth < 3:
+                    extra.append('in ' + norm(a.iter))
             # names bound by try: x = expr inside the function are covered above
     return txt + ' <- ' + ' ; '.join(extra) if extra else txt
+
+
+def _has_fact(fact: str, text: str) -> bool:
+    if fact.startswith('re:'):
+        import re
+        return re.search(fact[3:], text) is not None
+    return fact in text
 
 
 def check_sites(rep: Report, rel: str):
@@ -134,7 +149,7 @@ def r18_1_2(rep: Report) -> None:
                 if isinstance(p, ast.If):
                     cond += ' ' + _expand(fn, p.test)
                 p = getattr(p, '_parent', None)
-            if all(f in text + cond for f in facts):
+            if all(_has_fact(f, text + cond) for f in facts):
                 hits.append((r, fn, call))
         construct = rel if rel.endswith('.py') else f'{rel}/*'
         if hits:
